@@ -30,12 +30,12 @@ impl super::GetFrameType for NewTokenFrame {
 
 impl super::EncodeSize for NewTokenFrame {
     fn max_encoding_size(&self) -> usize {
-        // token's length could not exceed 20
-        1 + 1 + self.token.len()
+        self.encoding_size()
     }
 
     fn encoding_size(&self) -> usize {
-        1 + 1 + self.token.len()
+        // the length of the token is a varint: 2 bytes from 64, 4 bytes from 16384 bytes on
+        1 + VarInt::from_u32(self.token.len() as u32).encoding_size() + self.token.len()
     }
 }
 
